@@ -8,6 +8,7 @@ import PdfModel.Lemmas.TotalXrefStream
 import PdfModel.Lemmas.TotalOpen
 import PdfModel.Lemmas.TotalGlue
 import PdfModel.Lemmas.DeriveRegistryTotal
+import PdfModel.Lemmas.ReadLinear
 import PdfModel.Generated.Schemas
 import PdfModel.Props.C02
 import PdfModel.Props.C05
@@ -530,7 +531,105 @@ theorem typed_load_total (cfg : Derive.Cfg) (hreg : Derive.RegistryOk Generated.
    fun g tolerant k => ⟨C14.guarded_load_terminates g tolerant k, C14.guarded_load_never_panics g tolerant _ _ _⟩⟩
 
 -- ===================================================================================================
--- 8. non-vacuity, regression witnesses
+-- 8. resources
+
+/-- **`read_core_linear`: the step bounds of the read core, in one place.** Wherever the model of a loop or a recursion
+    has fuel, the fuel that never runs out is an explicit linear function of the input (`len` = bytes of the file /
+    buffer, `data` = bytes a stream decodes to, `objects` = entries of the tables involved); where the model recurses
+    structurally, what it produces is bounded by what it consumes:
+
+    1. object parser: `3·len + 64` levels of recursion / loop rounds for `parse` from any cursor (and a successful parse
+       consumes ≥ 1 byte; values nest ≤ 20);
+    2. string lexers: `bytes left + 2` lexemes, `bytes left + 1` loop rounds per lexeme;
+    3. content stream: ≤ `len + 1` rounds of `OpBuilder::parse`, each round one `parse` (1.) — the rounds are linear, a
+       round's parse is linear in what lies ahead; that the total is ≤ `(MAX_DEPTH + 1)·len` follows from the nesting
+       limit but is not proved here;
+    4. classic cross-reference section: ≤ `len + 1` subsections, and `n` entries cost ≥ `3 n` bytes whatever the header
+       claims;
+    5. cross-reference stream section: never more entries than decoded bytes;
+    6. the `/Prev` walk: `len + 2` rounds (on a well-formed chain exactly its length: `open_walk_concrete`), and the table it
+       returns has ≤ `MAX_ID + 1` = 1 000 001 slots whatever `/Size` says;
+    7. resolving an object: `2·(table length) + 3` nested calls;
+    8. typed loads: `objects + 1` nested gets, and never more than 64 (the guard's depth limit);
+    9. name / number tree walks: ≤ `B` gets for kid numbers below `B`, no node entered twice; page lookup: ≤ `16·m` gets
+       for `/Kids` arrays of ≤ `m` entries (C14).
+    The walker's limits (10 s per document in the quick tier, 8 MiB stack, 1.5 GiB address space) are generous
+    stand-ins for these bounds; what the bounds do not cover is named in the claim (third-party decoders, the
+    hand-written loaders, allocation sizes). -/
+theorem read_core_linear {R : Type} (env : Env R) (henv : EnvOk env) (buf : Buf) (hs : RealSize buf) :
+    -- 1
+    (∀ pos flags, pos ≤ buf.size → parseWithLexer env buf (3 * buf.size + 64) pos flags ≠ .oof) ∧
+    -- 2
+    (∀ pos, pos ≤ buf.size → collectString buf (buf.size - pos + 2) pos 0 [] ≠ .oof ∧
+        collectHex buf pos (buf.size - pos + 2) pos [] ≠ .oof) ∧
+    -- 3
+    (∀ (o : Oracle) (allow : Bool), contentLoop env buf o allow (buf.size + 1) 0 ≠ .oof) ∧
+    -- 4
+    (∀ pos, pos ≤ buf.size → XrefTable.tableLoop buf (buf.size + 1) pos [] ≠ .oof) ∧
+    (∀ n pos es q, pos ≤ buf.size → XrefTable.entryLoop buf n pos [] = .ok (es, q) → 3 * es.length ≤ q - pos ∧ q ≤ buf.size) ∧
+    -- 5
+    (∀ first n width data allowErr s rest, Xref.parseSection first n width data allowErr = .ok (s, rest) →
+        s.entries.length ≤ data.length) ∧
+    -- 6
+    (∀ {V T : Type} (P : Offsets.Parsers V T) (bytes : List UInt8) (hP : Offsets.TotalOn P bytes.length) (start : Nat),
+        Offsets.loadTable P (bytes.length + 2) bytes start ≠ .oof ∧
+        ∀ t tr, Offsets.loadTable P (bytes.length + 2) bytes start = .ok (t, tr) → t.length ≤ Offsets.maxId + 1) ∧
+    -- 7
+    (∀ {V T : Type} (P : Offsets.Parsers V T) (bytes : List UInt8) (hP : Offsets.TotalOn P bytes.length)
+        (start : Nat) (t : Xref.Table) (flags : Offsets.Flags) (id : Nat),
+        Offsets.resolveRef P bytes start t (2 * t.length + 3) [] flags id ≠ .oof) ∧
+    -- 8
+    (∀ (g : TypedLoad.Graph) (tolerant : Bool) (k : Nat),
+        TypedLoad.load g tolerant (g.length + 1) [] k ≠ .oof ∧ TypedLoad.load g tolerant (TypedLoad.maxNest + 1) [] k ≠ .oof) ∧
+    -- 9
+    (∀ (g : List TypedLoad.TNode) (root : TypedLoad.TNode) (B : Nat),
+        (∀ node ∈ g, ∀ kid ∈ TypedLoad.kidsOf node, kid < B) → (∀ kid ∈ TypedLoad.kidsOf root, kid < B) →
+        (TypedLoad.walkTree g root).st.gets ≤ B) ∧
+    (∀ (g : List TypedLoad.PNode) (m : Nat), (∀ kids count, TypedLoad.PNode.tree kids count ∈ g → kids.length ≤ m) →
+        ∀ kids, kids.length ≤ m → ∀ n, (TypedLoad.page g true kids n).gets ≤ 16 * m) := by
+  refine ⟨?_, ?_, ?_, ?_, ?_, ?_, ?_, ?_, ?_, ?_, ?_⟩
+  · intro pos flags h
+    exact (parseWithLexer_good env henv buf hs _ pos flags h (by omega)).ret.ne_oof
+  · intro pos h
+    constructor
+    · have hm : (0 : Int) + ((buf.size - pos : Nat) : Int) ≤ i64Max := by unfold RealSize at hs; unfold i64Max; omega
+      rcases collectString_spec buf (buf.size - pos + 2) pos 0 [] h (Int.le_refl 0) hm (by omega) with he | ⟨s, p, hp, _⟩
+      · rw [he]; simp
+      · rw [hp]; simp
+    · rcases collectHex_spec buf pos (buf.size - pos + 2) pos [] (Nat.le_refl _) h (by omega) with he | ⟨s, p, hp, _⟩
+      · rw [he]; simp
+      · rw [hp]; simp
+  · intro o allow
+    rcases contentLoop_spec env henv buf hs o allow (buf.size + 1) 0 (Nat.zero_le _) (by omega) with he | ⟨p, hp, _⟩
+    · rw [he]; simp
+    · rw [hp]; simp
+  · intro pos h
+    rcases XrefTable.tableLoop_total buf (buf.size + 1) pos [] h (by omega) (fun s hs => by cases hs)
+      with he | ⟨subs, q, hq, _⟩
+    · rw [he]; simp
+    · rw [hq]; simp
+  · intro n pos es q h heq
+    rcases XrefTable.entryLoop_total buf n pos [] h (fun e he => by cases he) with he | ⟨es', q', hq', q1, q2, _, q4⟩
+    · rw [he] at heq; cases heq
+    · rw [hq'] at heq; cases heq; simp at q4; exact ⟨by omega, q2⟩
+  · intro first n width data allowErr s rest heq
+    rcases Xref.parseSection_spec first n width data allowErr with he | ⟨s', rest', hr, _, _, hl⟩
+    · rw [he] at heq; cases heq
+    · rw [hr] at heq; cases heq; exact hl
+  · intro V T P bytes hP start
+    exact ⟨(Offsets.loadTable_returns P bytes hP start _ (Nat.le_refl _)).2,
+      fun t tr h => Offsets.loadTable_length P _ bytes start t tr h⟩
+  · intro V T P bytes hP start t flags id
+    exact (Offsets.resolveRef_returns_top P bytes hP start t _ flags id (Nat.le_refl _)).2
+  · intro g tolerant k
+    exact ⟨C14.guarded_load_terminates g tolerant k, C14.load_depth_bounded g tolerant k⟩
+  · intro g root B hg hr
+    exact (C14.walk_work_linear g root B hg hr).1
+  · intro g m hm kids hk n
+    exact C14.page_steps_bound g true m hm kids hk n
+
+-- ===================================================================================================
+-- 9. non-vacuity, regression witnesses
 
 /-- an environment without resolver and without decryption; reals are kept as their token text -/
 def textEnv : Env (List UInt8) :=
